@@ -578,6 +578,26 @@ func operatorCells(emit func(Case)) {
 				}
 			}
 		}
+		// an empty literal as an operand: it stands for a value of the other operand's type if
+		// that is an array (for []) or a map (for {}), and matches nothing else
+		for _, e := range []struct {
+			src string
+			k   m.Kind
+		}{{"[]", m.Arr}, {"{}", m.Map}, {"([])", m.Arr}, {"[][:]", m.Arr}} {
+			for _, op := range ops {
+				ok, _, why := false, "", "an empty literal matches only operands of its own kind"
+				if L.K == e.k {
+					ok, _, why = binaryRule(op, L, L)
+				}
+				emit(Case{Src: "l:" + L.String() + "\nv := (l " + op + " " + e.src + ")\nprint v\n", Cell: fmt.Sprintf("binary: %s %s empty %s (variable, empty literal)", L, op, e.src), Accept: ok, Why: why})
+				if !(op == "*" && L.K == m.Num) { // ([] * n is a repetition)
+					emit(Case{Src: "l:" + L.String() + "\nv := (" + e.src + " " + op + " l)\nprint v\n", Cell: fmt.Sprintf("binary: empty %s %s %s (empty literal, variable)", e.src, op, L), Accept: ok, Why: why})
+				}
+				if L.K != m.Any {
+					emit(Case{Src: "v := (" + lit(L) + " " + op + " " + e.src + ")\nprint v\n", Cell: fmt.Sprintf("binary: %s %s empty %s (literal, empty literal)", L, op, e.src), Accept: ok, Why: why})
+				}
+			}
+		}
 		for _, op := range []string{"-", "!"} {
 			ok := (op == "-" && L.K == m.Num) || (op == "!" && L.K == m.Bool)
 			res := ""
